@@ -9,7 +9,10 @@
 (* Two layers:                                                                  *)
 (*  abstract   ValT(template, ctx, clk, defs): the documented value.  Scalar    *)
 (*             helpers come from ExprScalar (INSTANCE S); `time now/live/delta` *)
-(*             read the clock clk = [c |-> compile time, e |-> evaluation time];*)
+(*             read the clock clk = [now, live, delta] (the texts the three      *)
+(*             key-words yield: ClkAt(compile time, evaluation time), or the    *)
+(*             symbolic ClkSym whose values are the marker bytes 1, 2, 3 - the  *)
+(*             vector generator uses it, the driver checks the real clock);     *)
 (*             a funcs-file function is *substitution*: the body with {i}       *)
 (*             replaced by the i-th call argument (missing: empty), keys        *)
 (*             resolved in the caller's context.  Optimisation does not exist   *)
@@ -36,6 +39,10 @@ TRUTHY == <<0 - 2>>      \* the docs only say "truthy"
 FALSY  == <<0 - 3>>      \* empty or blank
 MARKER == <<0 - 4>>      \* one of the documented error markers
 IsBytes(v) == v = <<>> \/ v[1] >= 0
+\* clocks: what {time now}, {time live}, {time delta} yield
+ClkAt(c, e) == [now |-> Itoa(c), live |-> Itoa(e), delta |-> Itoa(e - c)]
+ClkSym == [now |-> <<1>>, live |-> <<2>>, delta |-> <<3>>]     \* symbolic (marker bytes)
+IsVol(v) == IsBytes(v) /\ \E i \in 1..Len(v) : v[i] \in {1, 2, 3}
 
 \* ---------------------------------------------------------------- trees
 Nd(t, v, n, f, args, body) == [t |-> t, v |-> v, n |-> n, f |-> f, args |-> args, body |-> body]
@@ -57,6 +64,14 @@ GetKey(c, name) ==
 
 \* funcs-file definitions: a sequence of [name, body]; definition i may call definitions < i
 DefIdx(f, defs) == LET H == {i \in 1..Len(defs) : defs[i].name = f} IN IF H = {} THEN 0 ELSE MaxOf(H)
+
+\* distinct names; a body calls only definitions that stand before it ("later definitions may call earlier ones")
+RECURSIVE CallsT(_)
+CallsN(nd) == IF nd.t # "call" THEN {} ELSE {nd.f} \cup UNION {CallsT(nd.args[i]) : i \in 1..Len(nd.args)}
+CallsT(tpl) == UNION {CallsN(tpl[i]) : i \in 1..Len(tpl)}
+WellScoped(defs) ==
+  /\ \A i, j \in 1..Len(defs) : i # j => defs[i].name # defs[j].name
+  /\ \A i \in 1..Len(defs) : \A f \in CallsT(defs[i].body) : DefIdx(f, defs) < i
 
 \* ---------------------------------------------------------------- helper names as text
 NameB(f) ==
@@ -112,6 +127,8 @@ NameB(f) ==
     [] f = "extname" -> <<101, 120, 116, 110, 97, 109, 101>>
     [] f = "time" -> <<116, 105, 109, 101>>
     [] f = "badlive" -> <<98, 97, 100, 108, 105, 118, 101>>
+    [] f = "classifylen" -> <<99,108,97,115,115,105,102,121,108,101,110>>
+    [] f = "name-of-func" -> <<110,97,109,101,45,111,102,45,102,117,110,99>>
     [] f = "u1" -> <<117, 49>>
     [] f = "u2" -> <<117, 50>>
     [] f = "u3" -> <<117, 51>>
@@ -124,7 +141,11 @@ NameB(f) ==
 \* braces or backslashes (an argument that is exactly the empty literal prints as "");
 \* top-level literals may contain single blanks.  (Escaping is C09's subject.)
 RECURSIVE TextT(_), TextN(_), TextArgs(_)
-TextArg(tpl) == LET s == TextT(tpl) IN IF s = <<>> THEN <<34, 34>> ELSE s
+\* a literal argument containing a blank is written in quotes
+TextArg(tpl) == LET s == TextT(tpl) IN
+                IF s = <<>> THEN <<34, 34>>
+                ELSE IF Len(tpl) = 1 /\ tpl[1].t = "lit" /\ \E i \in 1..Len(s) : s[i] = 32 THEN <<34>> \o s \o <<34>>
+                ELSE s
 TextArgs(args) == IF args = <<>> THEN <<>> ELSE <<32>> \o TextArg(args[1]) \o TextArgs(Tail(args))
 TextN(nd) ==
   CASE nd.t = "lit" -> nd.v
@@ -152,9 +173,11 @@ PosOf(tpl) == IF ClosedT(tpl) THEN "c"
               ELSE IF \E i \in 1..Len(tpl) : tpl[i].t \in {"grp", "key"} THEN "d" ELSE "u"
 
 \* ================================================================= abstract value
+\* a value containing a (symbolic) clock reading is a number: true
 CondOf(v) == IF v = TRUTHY THEN "true" ELSE IF v = FALSY THEN "empty"
-             ELSE IF ~IsBytes(v) THEN "unknown" ELSE S!CondClass(v)
-LogicOf(v) == IF v = TRUTHY THEN "true" ELSE IF ~IsBytes(v) THEN "unknown" ELSE S!LogicClass(v)
+             ELSE IF ~IsBytes(v) THEN "unknown" ELSE IF IsVol(v) THEN "true" ELSE S!CondClass(v)
+LogicOf(v) == IF v = TRUTHY THEN "true" ELSE IF ~IsBytes(v) THEN "unknown"
+              ELSE IF IsVol(v) THEN "true" ELSE S!LogicClass(v)
 FromExp(e) == CASE e.k = "out" -> e.v [] e.k = "truthy" -> TRUTHY [] e.k = "falsy" -> FALSY
                 [] e.k = "marker" -> MARKER [] OTHER -> UNK
 RECURSIVE AbsSwitch(_, _)
@@ -198,7 +221,7 @@ AbsScalar(f, av, pos) ==
   IF ~S!ArityOK(f, n) THEN S!ARGN
   ELSE IF \E i \in sens : i <= n /\ pos[i] = "u" THEN UNK
   ELSE IF \E i \in S!ConstOnly(f) : i <= n /\ pos[i] = "d" THEN MARKER
-  ELSE IF \E i \in 1..n : ~IsBytes(av[i]) THEN UNK
+  ELSE IF \E i \in 1..n : ~IsBytes(av[i]) \/ IsVol(av[i]) THEN UNK
   ELSE FromExp(S!Expect(f, av, [i \in 1..n |-> IF pos[i] = "c" THEN "c" ELSE "d"]))
 
 KwNow   == <<110, 111, 119>>
@@ -214,17 +237,19 @@ ValN(nd, c, clk, defs) ==
     [] nd.t = "key" -> GetKey(c, nd.v)
     [] nd.t = "call" ->
        LET n == Len(nd.args)  d == DefIdx(nd.f, defs) IN
-       IF d > 0 THEN ValT(SubstT(defs[d].body, nd.args), c, clk, SubSeq(defs, 1, d - 1))
+       \* the arguments belong to the caller (they may call any definition); the body calls earlier
+       \* definitions only (WellScoped), so the whole list can be used for the substituted body
+       IF d > 0 THEN ValT(SubstT(defs[d].body, nd.args), c, clk, defs)
        ELSE IF nd.f = "time" THEN
          (IF n = 1 /\ ClosedT(nd.args[1]) THEN
             LET w == ValT(nd.args[1], c, clk, defs) IN
             IF ~IsBytes(w) THEN UNK
             ELSE LET kw == LowerASCII(w) IN
-                 IF kw = KwNow THEN Itoa(clk.c)
-                 ELSE IF kw = KwLive THEN Itoa(clk.e)
-                 ELSE IF kw = KwDelta THEN Itoa(clk.e - clk.c) ELSE UNK
+                 IF kw = KwNow THEN clk.now
+                 ELSE IF kw = KwLive THEN clk.live
+                 ELSE IF kw = KwDelta THEN clk.delta ELSE UNK
           ELSE UNK)
-       ELSE IF nd.f = "badlive" THEN Itoa(clk.e)
+       ELSE IF nd.f = "badlive" THEN clk.live
        ELSE IF nd.f \notin S!Funcs \/ n = 0 THEN UNK
        ELSE LET av == [i \in 1..n |-> ValT(nd.args[i], c, clk, defs)] IN
             IF nd.f \in Lazy6 THEN AbsLazy(nd.f, av)
@@ -410,6 +435,6 @@ CompDefs(defs, k0, acc) ==
   IF defs = <<>> THEN acc
   ELSE CompDefs(Tail(defs), k0, Append(acc, [name |-> defs[1].name, body |-> CompT(defs[1].body, TRUE, k0, acc)]))
 
-\* the value the compiled expression yields: compiled at clk.c, evaluated at clk.e
-Run(tpl, opt, c, clk, defs) == ExecT(CompT(tpl, opt, clk.c, CompDefs(defs, clk.c, <<>>)), c, clk.e).v
+\* the value the compiled expression yields: compiled at clock k0, evaluated at clock e
+Run(tpl, opt, c, k0, e, defs) == ExecT(CompT(tpl, opt, k0, CompDefs(defs, k0, <<>>)), c, e).v
 =============================================================================
